@@ -168,6 +168,41 @@ def matrix():
         print("%-10s %-4s caught=%s missed=%s infra=%s" % (r[0], r[1], ",".join(r[3]), ",".join(r[4]), ",".join(r[5])))
 
 
+def matrix_md():
+    """markdown table of seeded/*/meta.json; written between the matrix markers of DESIGN.md"""
+    lines = ["| change | own | what it changes | caught by (quick) | not noticed by | how its own check reports it |", "|---|---|---|---|---|---|"]
+    for sid in sorted(os.listdir(SEEDED)):
+        mp = os.path.join(SEEDED, sid, "meta.json")
+        if not os.path.exists(mp):
+            continue
+        m = json.load(open(mp))
+        det = m.get("detection", {})
+        own = m.get("breaks_property")
+        caught = sorted(k.split(":")[0] for k, v in det.items() if v.get("exit") == 1 and k.endswith(":quick"))
+        missed = sorted(k.split(":")[0] for k, v in det.items() if v.get("exit") == 0 and k.endswith(":quick"))
+        o = det.get(own + ":quick", {})
+        how = (o.get("what") or "").replace("|", "/").replace("\n", " ").replace("\t", " ")[:110]
+        if o.get("line", "").endswith("no-failing-input-found"):
+            how = "no-failing-input-found: " + how
+        files = (m.get("files_changed") or "").strip()
+        note = (m.get("needs_to_manifest") or "").strip().splitlines()
+        title = next((l.strip("# ").strip() for l in note if l.strip()), "")[:90].replace("|", "/")
+        lines.append("| %s | %s | %s | %s | %s | %s |" % (sid, own, title or files, " ".join(caught) or "—",
+                                                      (" ".join(missed) if len(missed) < 19 else "all others") or ("—" if len(det) > 1 else "(only own check run)"), how))
+    return "\n".join(lines)
+
+
+def write_design():
+    p = os.path.join(VERIF, "DESIGN.md")
+    s = open(p).read()
+    b, e = "<!-- matrix:begin -->", "<!-- matrix:end -->"
+    if b not in s:
+        s = s.replace("MATRIX_PLACEHOLDER", b + "\n" + e)
+    i, j = s.index(b) + len(b), s.index(e)
+    s = s[:i] + "\n" + matrix_md() + "\n" + s[j:]
+    open(p, "w").write(s)
+
+
 if __name__ == "__main__":
     a = sys.argv[1:]
     if not a:
@@ -186,4 +221,9 @@ if __name__ == "__main__":
             tier = a[a.index("--tier") + 1]
         detect(a[1], props, tier)
     if a[0] == "matrix":
-        matrix()
+        if "--design" in a:
+            write_design()
+        elif "--md" in a:
+            print(matrix_md())
+        else:
+            matrix()
